@@ -178,10 +178,15 @@ def run_one(t):
                 return None
         w.link.hook = hook
         w.monitors.append(mon)
+        # slow, tape-paced sending in a third of the runs: the file data phase may then last longer than a check
+        # interval (timers must count from the EOF, not from the start of the transaction)
+        if t.choose(3, "pacing") == 2:
+            w.pacing = "random"
         w.max_events = 20000
         w.max_t = 10_000_000
         _start(ctx, None)
-        bound = (L + 3) * (C + 300) + 3000
+        slack = 300 if w.pacing == "regular" else 4 * cfg.poll_ms + 300  # an expiry is observed at the next poll
+        bound = (L + 3) * (C + slack) + 3000
 
         def until(w):
             return w.clock.t > bound
